@@ -347,6 +347,8 @@ pub struct Env<'a> {
     pub down: &'a [bool],
     pub now: u32,
     pub verbose: bool,
+    /// the walk starts from a packet the reference delivers end to end (preferred as witness)
+    pub valid_origin: bool,
 }
 
 #[derive(Clone, Debug, Default)]
@@ -563,7 +565,7 @@ fn egress_of(bytes: &[u8], r: &Step) -> Option<u16> {
 
 /// Witness size: topology size first, then packet length.
 fn metric(env: &Env, pkt: &[u8]) -> usize {
-    (env.t.ases.len() * 100 + env.t.links.len()) * 10_000 + pkt.len()
+    (if env.valid_origin { 0 } else { 1 << 40 }) + (env.t.ases.len() * 100 + env.t.links.len()) * 10_000 + pkt.len()
 }
 fn ia_str(t: &Topo, a: AsIdx) -> String {
     let n = &t.ases[a];
@@ -847,7 +849,7 @@ pub fn explore_topology(run: &vpc::Run, findings: &Findings, t: &Topo, levels: u
     rep.pieces = pieces.len();
     let up = vec![false; t.links.len()];
     let now0 = BASE_TS + 17 * nsegs as u32 + 5;
-    let env = Env { findings, run, t, real: &real, down: &up, now: now0, verbose: false };
+    let env = Env { findings, run, t, real: &real, down: &up, now: now0, verbose: false, valid_origin: false };
     let valid: Mutex<Vec<(Vec<u8>, AsIdx, WalkOut)>> = Mutex::new(vec![]);
     let total = Mutex::new(Loc::default());
 
@@ -952,7 +954,7 @@ pub fn explore_topology(run: &vpc::Run, findings: &Findings, t: &Topo, levels: u
         let e = e as u32;
         let clocks = [t0 - 1, t0, e - 1, e, e + 1];
         // the reference walk at t0, links up: on-path states
-        let env0 = Env { findings, run, t, real: &real, down: &up, now: t0, verbose: false };
+        let env0 = Env { findings, run, t, real: &real, down: &up, now: t0, verbose: false, valid_origin: true };
         let w0 = walk(&env0, &mut loc, *src, 0, pkt, &|| json!({"valid_packet": vpc::hex(pkt)}), true);
         // a shortcut = cross-over at a non-core AS
         if w0.saw_xover {
@@ -972,7 +974,7 @@ pub fn explore_topology(run: &vpc::Run, findings: &Findings, t: &Topo, levels: u
                 if ci == 1 && li == 0 {
                     continue; // done above
                 }
-                let env = Env { findings, run, t, real: &reals[li], down: d, now, verbose: false };
+                let env = Env { findings, run, t, real: &reals[li], down: d, now, verbose: false, valid_origin: false };
                 walk(&env, &mut loc, *src, 0, pkt, &|| json!({"valid_packet": vpc::hex(pkt), "clock": CLOCK_NAMES[ci]}), false);
             }
         }
@@ -983,17 +985,17 @@ pub fn explore_topology(run: &vpc::Run, findings: &Findings, t: &Topo, levels: u
                 let o = || json!({"valid_packet": vpc::hex(pkt), "on_path_state": k, "corruption": name});
                 let cclocks: &[u32] = if deep { &clocks } else { &clocks[1..=1] };
                 for &now in cclocks {
-                    let env = Env { findings, run, t, real: &real, down: &up, now, verbose: false };
+                    let env = Env { findings, run, t, real: &real, down: &up, now, verbose: false, valid_origin: false };
                     walk(&env, &mut loc, *a, *ing, &cb, &o, false);
                 }
                 if deep {
                     for &li in &single_down {
-                        let env = Env { findings, run, t, real: &reals[li], down: &lsets[li], now: t0, verbose: false };
+                        let env = Env { findings, run, t, real: &reals[li], down: &lsets[li], now: t0, verbose: false, valid_origin: false };
                         walk(&env, &mut loc, *a, *ing, &cb, &o, false);
                     }
                 } else {
                     // one combined fault: the corruption met at the first second after the earliest expiry
-                    let env = Env { findings, run, t, real: &real, down: &up, now: clocks[4], verbose: false };
+                    let env = Env { findings, run, t, real: &real, down: &up, now: clocks[4], verbose: false, valid_origin: false };
                     walk(&env, &mut loc, *a, *ing, &cb, &o, false);
                 }
             }
@@ -1192,7 +1194,7 @@ fn replay(args: &vpc::Args, f: &std::path::Path) -> ! {
     unsafe { std::env::set_var("VERIF_ROOT", "/root/scratch/c13-replay-out") };
     let run = vpc::Run::new(&a2);
     let findings = Findings::default();
-    let env = Env { findings: &findings, run: &run, t: &t, real: &real, down: &down, now, verbose: true };
+    let env = Env { findings: &findings, run: &run, t: &t, real: &real, down: &down, now, verbose: true, valid_origin: false };
     let mut loc = Loc::default();
     let out = walk(&env, &mut loc, start, ingress, &pkt, &|| json!("replay"), false);
     findings.flush(&run);
